@@ -20,6 +20,14 @@ ASSUMPTIONS = ["'schedules' is interpreted as orders of assemblies inside one in
 GROUP = 8
 
 
+TWINS = [(f, o) for f, ops in (
+    (("PSHU", "PSHS"), ["S,X", "U,PC", "A,B", "X,Y,S", "U"]), (("PULS", "PULU"), ["S,X", "U,PC", "CC,DP"]), (("TFR", "EXG"), ["A,B", "X,Y", "D,X"]),
+    (("LDA", "LDX"), ["#5", "$10,X", "[$1234]", "#V", "V", "L", "V+1", "L+1", "-5,Y", "V,PCR", "L,PCR", "#V*2"]),
+    (("FCB", "FDB"), ["V*2", "V+1", "L+1", "V", "L", "1,2,3", "V-1", "L-V"]), (("FCB", "FCB"), ["V*2", "L+1", "V"]), (("FDB", "FDB"), ["V*2", "L+1", "L"]),
+    (("LDA", "LEAX"), ["V,X", "L,PCR", "[L,PCR]", "V,PCR"]), (("JMP", "LBRA"), ["L", "L+1"]), (("STA", "CMPU"), ["V", "L", "$10,X"]), (("LDX", "LDX"), ["#L+V", "#V*V", "L"]))
+    for o in ops]
+
+
 def setup(ctx):
     asmmon.install()
 
@@ -44,11 +52,11 @@ def gen_cases(tier, seed):
             texts.append(lines)
         # twins: the same operand text under different mnemonics / with different symbol values in different programs of one group -
         # anything cached on operand text alone, or on a symbol name, makes the later program depend on the earlier one
-        opnd = r.choice(["S,X", "U,PC", "A,B", "X,Y", "D,X", "#5", "$10,X", "[$1234]", "V*2", "V+1", "#V", "L+1", "1,2,3", "V", "L", "-5,Y", "V,PCR"])
-        fam = r.choice([("PSHU", "PSHS"), ("PULS", "PULU"), ("TFR", "EXG"), ("LDA", "LDX"), ("FCB", "FDB"), ("LDA", "LEAX"), ("JMP", "LBRA"), ("STA", "CMPU")])
-        v1, v2 = r.sample([1, 2, 5, 7, 100, 255, 256, 1000], 2)
-        for mn, v, org in ((fam[0], v1, 0x1000), (fam[1], v2, 0x2000)):
-            texts.append(["V EQU %d\n" % v, " ORG $%X\n" % org, " RMB %d\n" % v, "L NOP\n", " %s %s\n" % (mn, opnd), " RTS\n"])
+        for tw in range(3):
+            fam, opnd = TWINS[(3 * g + tw) % len(TWINS)]
+            v1, v2 = r.sample([1, 2, 5, 7, 100, 255, 256, 1000], 2)
+            for mn, v, org in ((fam[0], v1, 0x1000), (fam[1], v2, 0x2000)):
+                texts.append(["V EQU %d\n" % v, " ORG $%X\n" % org, " RMB %d\n" % v, "L NOP\n", " %s %s\n" % (mn, opnd), " RTS\n"])
         yield {"id": "group/%d" % g, "texts": texts}
     # include files that change between two assemblies in the same process (same name, same size, same second)
     for k in range(40 if thorough else 6):
